@@ -138,6 +138,20 @@ def emitter_fact(ctx):
         ctx.static_facts.append("NOT ESTABLISHED: mfront/src/CodeGeneratorUtilities.cxx:writePhysicalBoundsChecks mentions a policy; 'physical bounds are always strict' is no longer a syntactic fact")
     else:
         ctx.static_facts.append("mfront/src/CodeGeneratorUtilities.cxx:%d writePhysicalBoundsChecks emits the BoundsCheck calls without any policy argument, so the `= Strict` default of BoundsCheck.hxx applies (regex on the emitter text; supporting fact, not proof)" % line)
+    # the shared emitter: every emitted BoundsCheck call statement must end with the policy_argument, which is empty exactly for physical bounds
+    import re
+    try:
+        raw, line = X.locate(ctx.repo, "mfront/src/CodeGeneratorUtilities.cxx", r"static void writeBoundsChecks\(std::ostream& os,")
+        body = X.strip_comments(raw)
+        stmts = [st for st in body.split(";") if re.search(r"Bounds?Checks?\(", st)]
+        bad = [st.strip()[:80] for st in stmts if "policy_argument" not in st]
+        lam = re.search(r"const auto policy_argument = \[&physicalBounds, &policy\]\(\) -> std::string \{\s*if \(!physicalBounds\) \{\s*return \", \" \+ std::string\{policy\};\s*\}\s*return \"\";\s*\}\(\)", body)
+        if not stmts or bad or not lam:
+            ctx.undecided("C27/static/emitter-passes-policy", "supporting static fact not established: %d of %d emitted BoundsCheck call statements in writeBoundsChecks lack the policy argument (or the policy_argument lambda changed): %s" % (len(bad), len(stmts), bad[:2]))
+        else:
+            ctx.static_facts.append("mfront/src/CodeGeneratorUtilities.cxx:%d static writeBoundsChecks: all %d emitted BoundsCheck call statements append policy_argument, which is \"\" for physical bounds and \", <policy>\" otherwise (regex on the emitter text; supporting fact, not proof)" % (line, len(stmts)))
+    except X.ExtractionDrift as e:
+        ctx.undecided("C27/static/emitter-passes-policy", "emitter not found: %s" % e)
     try:
         hdr = open(os.path.join(ctx.repo, H)).read()
         n = hdr.count("const OutOfBoundsPolicy p = Strict")
